@@ -302,8 +302,13 @@ func (li *Listener) Close() error {
 	li.doneOnce.Do(func() {
 		close(li.doneChan)
 	})
+	// Close the QUIC listener before the PacketConn. Closing the PacketConn first makes quic-go's
+	// Transport read loop fail and run Transport.close(), which holds the Transport mutex while
+	// waiting for the server's closeOnce; a concurrent ql.Close() is inside that closeOnce waiting
+	// for the Transport mutex (Transport.closeServer), and both block forever.
+	qerr := li.ql.Close()
 	perr := li.pc.Close()
-	if qerr := li.ql.Close(); qerr != nil {
+	if qerr != nil {
 		return qerr
 	}
 
